@@ -309,6 +309,82 @@ impl Write for ShortW {
     }
 }
 
+/// how many bytes a short sink / source moves per call
+#[derive(Clone)]
+enum Chunk {
+    Fixed(usize),
+    /// seeded random 1..=n
+    Rand(usize, Rng),
+}
+impl Chunk {
+    fn next(&mut self) -> usize {
+        match self {
+            Chunk::Fixed(k) => *k,
+            Chunk::Rand(n, r) => r.range(1, *n as u64) as usize,
+        }
+    }
+}
+/// stimulus: a legal `io::Write` that accepts at most `chunk` bytes per call (pipe / socket like),
+/// optionally answers Ok(0) once or Err(Interrupted) once at a given call, optionally has a fixed
+/// capacity (then it answers Ok(0) for ever).  The sink is shared so the driver can look at it.
+struct ShortSink {
+    data: Rc<RefCell<Vec<u8>>>,
+    chunk: Chunk,
+    calls: usize,
+    zero_at: Option<usize>,
+    intr_at: Option<usize>,
+    intr_repeat: bool,
+    cap: Option<usize>,
+}
+impl ShortSink {
+    fn new(chunk: Chunk) -> (ShortSink, Rc<RefCell<Vec<u8>>>) {
+        let d = Rc::new(RefCell::new(Vec::new()));
+        (ShortSink { data: d.clone(), chunk, calls: 0, zero_at: None, intr_at: None, intr_repeat: false, cap: None }, d)
+    }
+}
+impl Write for ShortSink {
+    fn write(&mut self, buf: &[u8]) -> io::Result<usize> {
+        self.calls += 1;
+        if self.intr_at == Some(self.calls) {
+            // once, or again every 5 calls when `intr_repeat` (a retry always gets through)
+            self.intr_at = if self.intr_repeat { Some(self.calls + 5) } else { None };
+            return Err(io::Error::new(io::ErrorKind::Interrupted, "interrupted (stimulus)"));
+        }
+        if self.zero_at == Some(self.calls) {
+            self.zero_at = None;
+            return Ok(0);
+        }
+        let mut k = buf.len().min(self.chunk.next());
+        if let Some(c) = self.cap {
+            k = k.min(c.saturating_sub(self.data.borrow().len()));
+        }
+        self.data.borrow_mut().extend_from_slice(&buf[..k]);
+        Ok(k)
+    }
+    fn flush(&mut self) -> io::Result<()> {
+        Ok(())
+    }
+}
+/// stimulus: a legal `io::Read` that returns at most `chunk` bytes per call, optionally
+/// Err(Interrupted) once at a given call
+struct ShortSrc {
+    inner: Cursor<Vec<u8>>,
+    chunk: Chunk,
+    calls: usize,
+    intr_at: Option<usize>,
+}
+impl Read for ShortSrc {
+    fn read(&mut self, buf: &mut [u8]) -> io::Result<usize> {
+        self.calls += 1;
+        if self.intr_at == Some(self.calls) {
+            self.intr_at = None;
+            return Err(io::Error::new(io::ErrorKind::Interrupted, "interrupted (stimulus)"));
+        }
+        let k = buf.len().min(self.chunk.next());
+        self.inner.read(&mut buf[..k])
+    }
+}
+
 // ---------------------------------------------------------------- context / statistics
 
 #[derive(Default, Clone)]
@@ -345,6 +421,7 @@ impl Cx {
             "encseq:delta-u64", "encseq:groupvarint-u64", "encseq:groupvarint-i64", "encseq:auto-u64", "endian:magic", "endian:slices",
             "smart:weak", "smart:ctx-temp", "ver:version", "ver:versioned", "rd:buffered_seekcur", "rd:zerocopy_over",
             "rd:vectored-chunked", "rd:vectored-zerocopy8", "wr:vectored-short",
+            "dio:vec-sbr_intr", "dio:vec-zc_intr", "dio:zcw_short-zc_short",
         ];
         let clean = |x: &str| -> String { x.chars().map(|c| if c.is_ascii_alphanumeric() || c == '-' { c } else { '_' }).collect() };
         if OWN_FILE.contains(&subject) {
@@ -362,7 +439,15 @@ impl Cx {
             ("wr", "zerocopy") => "wr-zerocopy".into(),
             ("wr", _) => "wr-range".into(),
             ("dio", o) => {
-                let cls = if o.starts_with("vec") { "vec" } else if o.starts_with("writer") { "writer" } else { "file" };
+                let cls = if ["short", "zero_", "intr_", "fixed_", "range_t", "sbw_s", "zcw_s"].iter().any(|p| o.starts_with(p)) {
+                    "short"
+                } else if o.starts_with("vec") {
+                    "vec"
+                } else if o.starts_with("writer") {
+                    "writer"
+                } else {
+                    "file"
+                };
                 format!("dio-{cls}")
             }
             _ => clean(fam),
@@ -663,6 +748,33 @@ fn test_strings(rng: &mut Rng, big: bool) -> Vec<String> {
 fn varint_items(variant: &str, rng: &mut Rng) -> Vec<Item> {
     let mut items = vec![];
     match variant {
+        "write_short" => {
+            // the generic io::Write entry point over a writer that takes k bytes per call
+            for (j, x) in u64_values(rng).into_iter().enumerate() {
+                let k = [1usize, 2, 3, 7][j % 4];
+                items.push(Item {
+                    codec: format!("varint:write_to/short{k}"),
+                    v: vec![x.to_string()],
+                    unordered: false,
+                    exact: false,
+                    enc: Box::new(move |b| {
+                        let (mut sink, d) = ShortSink::new(Chunk::Fixed(k));
+                        let r = VarInt::write_to(&mut sink, x).map_err(es)?;
+                        b.extend_from_slice(&d.borrow());
+                        Ok(Some(r))
+                    }),
+                    dec: Box::new(move |d| {
+                        let mut i = ReaderDataInput::new(ShortSrc { inner: Cursor::new(d.to_vec()), chunk: Chunk::Fixed(k), calls: 0, intr_at: Some(2) });
+                        let y = VarInt::read_from(&mut i).map_err(es)?;
+                        Ok((vec![y.to_string()], Some(i.pos() as usize)))
+                    }),
+                    len_pred: Some(Box::new(move || VarInt::encoded_len(x))),
+                    field: None,
+                    tags: vec![],
+                    fits: vec![],
+                });
+            }
+        }
         "vec" | "write" | "encode" | "dataio" => {
             for x in u64_values(rng) {
                 let var = variant.to_string();
@@ -2080,6 +2192,22 @@ const DIO_PAIRS: &[(&str, &str)] = &[
     ("writer_sbw", "slice"),
     ("writer_zcw", "reader_zc8"),
     ("writer_range", "range"),
+    // short-write sinks and short-read sources (pipe / socket like), Ok(0) once, Interrupted once,
+    // targets whose capacity ends in the middle of an encoded value
+    ("short1", "slice"),
+    ("short2", "reader_short2"),
+    ("short3", "reader_short1"),
+    ("short7", "reader_short7"),
+    ("shortrand", "reader_shortrand"),
+    ("zero_once", "slice"),
+    ("intr_once", "reader_intr"),
+    ("fixed_tight", "slice"),
+    ("range_tight", "range_short"),
+    ("sbw_short", "sbr_short"),
+    ("zcw_short", "zc_short"),
+    ("vec", "sbr_intr"),
+    ("vec", "zc_intr"),
+    ("vec", "range_intr"),
 ];
 
 /// the byte image a writer back end produced
@@ -2106,11 +2234,61 @@ enum Out {
     Sbw(WriterDataOutput<StreamBufferedWriter<Vec<u8>>>),
     Zcw(WriterDataOutput<ZeroCopyWriter<Vec<u8>>>),
     Rng(WriterDataOutput<RangeWriter<Cursor<Vec<u8>>>>),
+    /// short-write sink family; the Rc is the sink itself
+    Short(WriterDataOutput<ShortSink>, Rc<RefCell<Vec<u8>>>),
+    SbwS(WriterDataOutput<StreamBufferedWriter<ShortSink>>, Rc<RefCell<Vec<u8>>>),
+    ZcwS(WriterDataOutput<ZeroCopyWriter<ShortSink>>, Rc<RefCell<Vec<u8>>>),
+    RngS(WriterDataOutput<RangeWriter<ShortSink>>, Rc<RefCell<Vec<u8>>>),
 }
 const RANGE_PAD: usize = 13;
 impl Out {
-    fn make(cx: &mut Cx, kind: &str) -> Result<Out, String> {
+    /// `tight`: capacity for the kinds whose target ends in the middle of an encoded value
+    fn make(cx: &mut Cx, kind: &str, tight: usize) -> Result<Out, String> {
+        let seed = cx.a.seed;
+        let short = |chunk: Chunk| ShortSink::new(chunk);
         Ok(match kind {
+            "short1" | "short2" | "short3" | "short7" => {
+                let (s, d) = short(Chunk::Fixed(kind[5..].parse().unwrap()));
+                Out::Short(WriterDataOutput::new(s), d)
+            }
+            "shortrand" => {
+                let (s, d) = short(Chunk::Rand(5, Rng::new(seed).derive("shortrand")));
+                Out::Short(zipora::io::to_writer(s), d)
+            }
+            "zero_once" => {
+                // Ok(0) once: must surface as an error of that call (WriteZero), never as lost bytes
+                let (mut s, d) = short(Chunk::Fixed(2));
+                s.zero_at = Some(9 + (seed as usize % 7));
+                Out::Short(WriterDataOutput::new(s), d)
+            }
+            "intr_once" => {
+                // Interrupted once: write_all retries, the stream is complete
+                let (mut s, d) = short(Chunk::Fixed(3));
+                s.intr_at = Some(5 + (seed as usize % 11));
+                Out::Short(WriterDataOutput::new(s), d)
+            }
+            "fixed_tight" => {
+                let (mut s, d) = short(Chunk::Fixed(1 << 20));
+                s.cap = Some(tight);
+                Out::Short(WriterDataOutput::new(s), d)
+            }
+            "range_tight" => {
+                let (s, d) = short(Chunk::Fixed(5));
+                Out::RngS(WriterDataOutput::new(RangeWriter::new(s, 0, tight as u64)), d)
+            }
+            "sbw_short" => {
+                let (mut s, d) = short(Chunk::Rand(4, Rng::new(seed).derive("sbw_short")));
+                s.intr_at = Some(3);
+                s.intr_repeat = true;
+                let cfg = StreamBufferConfig { initial_capacity: 7, max_capacity: 7, page_alignment: 1, use_secure_pool: false, bulk_read_threshold: 64, ..Default::default() };
+                Out::SbwS(WriterDataOutput::new(StreamBufferedWriter::with_config(s, cfg).map_err(es)?), d)
+            }
+            "zcw_short" => {
+                let (mut s, d) = short(Chunk::Rand(4, Rng::new(seed).derive("zcw_short")));
+                s.intr_at = Some(4);
+                s.intr_repeat = true;
+                Out::ZcwS(WriterDataOutput::new(ZeroCopyWriter::with_capacity(s, 16).map_err(es)?), d)
+            }
             "vec" => Out::Vec(zipora::io::to_vec()),
             "vec_cap" => Out::Vec(zipora::io::to_vec_with_capacity(1)),
             "writer_vec" => Out::WVec(zipora::io::to_writer(Vec::new())),
@@ -2162,6 +2340,17 @@ impl Out {
             Out::Sbw(o) => o,
             Out::Zcw(o) => o,
             Out::Rng(o) => o,
+            Out::Short(o, _) => o,
+            Out::SbwS(o, _) => o,
+            Out::ZcwS(o, _) => o,
+            Out::RngS(o, _) => o,
+        }
+    }
+    /// the sink, if the driver can look at it while the writer is alive (no buffering layer)
+    fn sink(&self) -> Option<Rc<RefCell<Vec<u8>>>> {
+        match self {
+            Out::Short(_, d) | Out::RngS(_, d) => Some(d.clone()),
+            _ => None,
         }
     }
     fn count(&self) -> u64 {
@@ -2174,6 +2363,10 @@ impl Out {
             Out::Sbw(o) => o.bytes_written(),
             Out::Zcw(o) => o.bytes_written(),
             Out::Rng(o) => o.bytes_written(),
+            Out::Short(o, _) => o.bytes_written(),
+            Out::SbwS(o, _) => o.bytes_written(),
+            Out::ZcwS(o, _) => o.bytes_written(),
+            Out::RngS(o, _) => o.bytes_written(),
         }
     }
     fn finish(self) -> Result<Image, String> {
@@ -2210,6 +2403,26 @@ impl Out {
             Out::Zcw(mut o) => {
                 DataOutput::flush(&mut o).map_err(es)?;
                 Image::Mem(o.into_inner().into_inner().map_err(es)?)
+            }
+            Out::Short(mut o, d) => {
+                DataOutput::flush(&mut o).map_err(es)?;
+                let v = d.borrow().clone();
+                Image::Mem(v)
+            }
+            Out::SbwS(mut o, d) => {
+                DataOutput::flush(&mut o).map_err(es)?;
+                let v = d.borrow().clone();
+                Image::Mem(v)
+            }
+            Out::ZcwS(mut o, d) => {
+                DataOutput::flush(&mut o).map_err(es)?;
+                let v = d.borrow().clone();
+                Image::Mem(v)
+            }
+            Out::RngS(mut o, d) => {
+                DataOutput::flush(&mut o).map_err(es)?;
+                let v = d.borrow().clone();
+                Image::Mem(v)
             }
             Out::Rng(mut o) => {
                 DataOutput::flush(&mut o).map_err(es)?;
@@ -2297,6 +2510,30 @@ fn make_input(cx: &mut Cx, kind: &str, img: &Image) -> Result<(Box<dyn DataInput
             (Box::new(ReaderDataInput::new(StreamBufferedReader::with_config(Cursor::new(img.bytes()), cfg).map_err(es)?)), true)
         }
         "reader_zc8" => (Box::new(ReaderDataInput::new(ZeroCopyReader::with_capacity(Cursor::new(img.bytes()), 8).map_err(es)?)), true),
+        "reader_short1" | "reader_short2" | "reader_short7" => {
+            let k: usize = kind[12..].parse().unwrap();
+            (Box::new(ReaderDataInput::new(ShortSrc { inner: Cursor::new(img.bytes()), chunk: Chunk::Fixed(k), calls: 0, intr_at: None })), true)
+        }
+        "reader_shortrand" => (Box::new(zipora::io::from_reader(ShortSrc { inner: Cursor::new(img.bytes()), chunk: Chunk::Rand(5, Rng::new(cx.a.seed).derive("rsr")), calls: 0, intr_at: None })), true),
+        "reader_intr" => {
+            // Interrupted once: read_exact retries, nothing is lost
+            let src = ShortSrc { inner: Cursor::new(img.bytes()), chunk: Chunk::Fixed(3), calls: 0, intr_at: Some(4 + (cx.a.seed as usize % 9)) };
+            (Box::new(ReaderDataInput::new(src)), true)
+        }
+        "sbr_short" | "sbr_intr" => {
+            let src = ShortSrc { inner: Cursor::new(img.bytes()), chunk: Chunk::Rand(4, Rng::new(cx.a.seed).derive("sbr")), calls: 0, intr_at: if kind == "sbr_intr" { Some(3) } else { None } };
+            let cfg = StreamBufferConfig { initial_capacity: 7, max_capacity: 1 << 20, page_alignment: 1, use_secure_pool: false, bulk_read_threshold: 64, ..Default::default() };
+            (Box::new(ReaderDataInput::new(StreamBufferedReader::with_config(src, cfg).map_err(es)?)), true)
+        }
+        "zc_short" | "zc_intr" => {
+            let src = ShortSrc { inner: Cursor::new(img.bytes()), chunk: Chunk::Rand(4, Rng::new(cx.a.seed).derive("zcs")), calls: 0, intr_at: if kind == "zc_intr" { Some(3) } else { None } };
+            (Box::new(ReaderDataInput::new(ZeroCopyReader::with_capacity(src, 8).map_err(es)?)), true)
+        }
+        "range_short" | "range_intr" => {
+            let b = img.bytes();
+            let src = ShortSrc { inner: Cursor::new(b.clone()), chunk: Chunk::Fixed(2), calls: 0, intr_at: if kind == "range_intr" { Some(6) } else { None } };
+            (Box::new(RangeReader::new(src, 0, b.len() as u64)), true)
+        }
         _ => (Box::new(ReaderDataInput::new(Chunked { inner: Cursor::new(img.bytes()), m: 3 })), true),
     })
 }
@@ -2304,7 +2541,21 @@ fn make_input(cx: &mut Cx, kind: &str, img: &Image) -> Result<(Box<dyn DataInput
 fn run_dio_pair(cx: &mut Cx, okind: &str, ikind: &str, items: &[DItem], setname: &str) {
     let subject = format!("dio:{okind}-{ikind}");
     cx.reset(&subject, json!({"set": setname, "items": items.len()}));
-    let mut out = match guard(|| Out::make(cx, okind)) {
+    // targets that end in the middle of an encoded value: the capacity is the length of the
+    // complete encoding (as the same encoders produce it into a growable buffer) minus a few bytes
+    let mut tight = 0usize;
+    if okind.ends_with("_tight") {
+        let mut total = 0usize;
+        for it in items {
+            let mut o = VecDataOutput::new();
+            if let Ok(Ok(())) = guard(|| (it.enc)(&mut o)) {
+                total += o.len();
+            }
+        }
+        tight = total.saturating_sub(1 + (cx.a.seed as usize + items.len()) % 9);
+    }
+    let pj = |b: &[u8]| if b.len() <= 64 { bytes_json(b) } else { digest(b) };
+    let mut out = match guard(|| Out::make(cx, okind, tight)) {
         Ok(Ok(o)) => o,
         Ok(Err(m)) => {
             cx.ev(&subject, json!({"op":"write_refused","codec":"open","v":[],"msg":m}));
@@ -2340,7 +2591,28 @@ fn run_dio_pair(cx: &mut Cx, okind: &str, ikind: &str, items: &[DItem], setname:
             }
         }
         let before = out.count();
-        match guard(|| (it.enc)(out.dout())) {
+        let sink = out.sink();
+        let sink_before = sink.as_ref().map_or(0, |d| d.borrow().len());
+        let res = guard(|| (it.enc)(out.dout()));
+        if let (Some(d), Ok(r)) = (&sink, &res) {
+            // a sink that may take fewer bytes than offered: what reached it during the call against
+            // the encoding the same encoder produces into a growable buffer
+            let got: Vec<u8> = d.borrow()[sink_before..].to_vec();
+            let mut o = VecDataOutput::new();
+            if let Ok(Ok(())) = guard(|| (it.enc)(&mut o)) {
+                let enc = o.into_vec();
+                let n = out.count() - before;
+                let ok = r.is_ok();
+                cx.ev(&subject, json!({"op":"write_through","codec":it.codec,"v":it.v,"ok":ok,"n":n,"enc_len":enc.len(),"sink_len":got.len(),
+                    "encp":pj(&enc[..got.len().min(enc.len())]),"sink":pj(&got),"at":sink_before,"msg":r.as_ref().err().cloned().unwrap_or_default()}));
+                if ok {
+                    recs.push((ix, enc.len() as u64));
+                    continue;
+                }
+                break; // a writer that reported an error is not written to again
+            }
+        }
+        match res {
             Ok(Ok(())) => {
                 let n = out.count() - before;
                 cx.ev(&subject, json!({"op":"write","codec":it.codec,"v":it.v,"n":n,"at":before - base}));
@@ -2352,7 +2624,7 @@ fn run_dio_pair(cx: &mut Cx, okind: &str, ikind: &str, items: &[DItem], setname:
                 if n == 0 {
                     cx.ev(&subject, json!({"op":"write_refused","codec":it.codec,"v":it.v,"msg":m}));
                 } else {
-                    cx.ev(&subject, json!({"op":"panic","in":"write","codec":it.codec,"msg":format!("refused after writing {n} bytes: {m}")}));
+                    cx.ev(&subject, json!({"op":"panic","in":"write","codec":it.codec,"msg":format!("refused after writing {n} bytes: {m}"),"interrupted":m.contains("interrupted (stimulus)")}));
                     return;
                 }
             }
@@ -2418,7 +2690,7 @@ fn run_dio_pair(cx: &mut Cx, okind: &str, ikind: &str, items: &[DItem], setname:
                 cx.case(&subject, &format!("{}/{}", it.codec, it.v.join(",")));
             }
             Ok(Err(m)) => {
-                cx.ev(&subject, json!({"op":"read_refused","codec":it.codec,"at":at,"want":it.v,"msg":m,"tags":it.tags}));
+                cx.ev(&subject, json!({"op":"read_refused","codec":it.codec,"at":at,"want":it.v,"interrupted":m.contains("interrupted (stimulus)"),"msg":m,"tags":it.tags}));
                 return; // a stateful reader is at an unknown place after a failed read
             }
             Err(m) => {
@@ -4102,7 +4374,7 @@ fn drive(a: &Args) {
             }
         }
     };
-    for v in ["vec", "write", "encode", "dataio", "signed", "multiple"] {
+    for v in ["vec", "write", "write_short", "encode", "dataio", "signed", "multiple"] {
         rec(&mut cx, &format!("varint:{v}"), &mut |r| varint_items(v, r));
     }
     for &(name, st) in STRATEGIES {
